@@ -29,7 +29,12 @@ def standard_flow(run, units, deps, vmon, profiles=("debug",), tag="s", nshards=
         bins = shards.compile_units(run, units, deps, prof, vmon, tag, extra_head=extra_head, nshards=nshards)
         run.count("shards/%s" % pn, len(bins))
         args = [str(run.seed), run.tier, pn] + list(extra_args)
-        s = shards.run_shards(run, bins, index, args=args, timeout=timeout)
+        ctr = [0]
+
+        def rebuild(us, nsh, prof=prof, ctr=ctr):
+            ctr[0] += 1
+            return shards.compile_units(run, us, deps, prof, vmon, "%s_w%d" % (tag, ctr[0]), extra_head=extra_head, nshards=nsh)
+        s = shards.run_shards(run, bins, index, args=args, rebuild=rebuild)
         for k, v in s.items():
             all_samples.setdefault(k, []).extend(v)
     return all_samples
